@@ -208,6 +208,8 @@ def regenerate_lockorder():
     # non-vacuity lemma requires every one of them to occur)
     table = re.search(r"Definition guards .*?:=\s*\[(.*?)\]\.", open(os.path.join(COQ, "theories", "Cache", "LockOrder.v")).read(), re.S)
     fields = re.findall(r'\(\s*"([^"]+)"\s*,', table.group(1)) if table else []
+    atab = re.search(r"Definition atomics .*?:=\s*\[(.*?)\]\.", open(os.path.join(COQ, "theories", "Cache", "LockOrder.v")).read(), re.S)
+    fields += re.findall(r'"([^"]+)"', atab.group(1)) if atab else []
     rc, out = sh([exe, "-fields", ",".join(fields), REPO] + LOCKORDER_FILES, cwd=REPO, env=goenv(), timeout=300)
     facts = os.path.join(BUILD, "lockorder.facts")
     open(facts, "w").write(out)
